@@ -55,6 +55,11 @@ for s in slots:
     wt = "/tmp/wt_selftest_%d_%d" % (os.getpid(), s)
     if os.path.isdir(wt):
         subprocess.run(["git", "-C", "/repo", "worktree", "remove", "--force", wt])
-json.dump([{"mutant": r[0], "property": r[1], "result": r[2], "detail": r[3]} for r in results],
-          open(os.path.join(ROOT, "selftest_results%s.json" % ("_seeded" if "--seeded" in args else "")), "w"), indent=1)
+outp = os.path.join(ROOT, "selftest_results%s.json" % ("_seeded" if "--seeded" in args else ""))
+merged = {}
+if os.path.exists(outp):
+    merged = {r["mutant"]: r for r in json.load(open(outp))}
+for r in results:
+    merged[r[0]] = {"mutant": r[0], "property": r[1], "result": r[2], "detail": r[3]}
+json.dump(sorted(merged.values(), key=lambda r: r["mutant"]), open(outp, "w"), indent=1)
 print("killed %d / %d" % (sum(1 for r in results if r[2] == "killed"), len(results)))
